@@ -460,7 +460,7 @@ fn wait_timeout(mut child: std::process::Child, secs: u64) -> Option<std::proces
     }
 }
 
-pub const HANG_SECS: u64 = 30;
+pub const HANG_SECS: u64 = 45;
 
 /// Collect one worker: its summary, or what is known about its death.
 fn harvest(
